@@ -23,6 +23,8 @@ pub fn env_defs() -> Vec<Stmt> {
         Stmt::Def("D1".into(), None, G::Alt(vec![lit("w1"), nt("X")])),
         // a definition that contains a within-word expression
         Stmt::Def("O".into(), None, G::Sub(vec![lit("--c="), G::Alt(vec![lit("u"), lit("v")])])),
+        // a definition with two space-separated literals (a mistake only when used inside a word)
+        Stmt::Def("SP".into(), None, G::Alt(vec![lit("fast"), G::Seq(vec![lit("very"), lit("slow")])])),
     ]
 }
 
@@ -57,7 +59,7 @@ pub fn wrap(g: &G) -> Grammar {
 
 pub fn corpus(thorough: bool, seed: u64) -> Vec<Grammar> {
     let leaves_small = vec![lit("a"), lit("b"), litd("a", "d1"), nt("X"), nt("U"), nt("Y"), cmd("echo k")];
-    let leaves_big = vec![lit("a"), lit("b"), lit("ab"), litd("a", "d1"), litd("c", "d2"), nt("X"), nt("U"), nt("Y"), nt("PATH"), nt("_"), cmd("echo k"), cmd("echo j"), nt("A1"), nt("O")];
+    let leaves_big = vec![lit("a"), lit("b"), lit("ab"), litd("a", "d1"), litd("c", "d2"), nt("X"), nt("U"), nt("Y"), nt("PATH"), nt("_"), cmd("echo k"), cmd("echo j"), nt("A1"), nt("O"), nt("SP")];
     let mut out: Vec<Grammar> = vec![];
     let max = if thorough { 5 } else { 4 };
     for n in 1..=max {
@@ -86,7 +88,7 @@ pub fn corpus(thorough: bool, seed: u64) -> Vec<Grammar> {
     out.extend(special.iter().map(wrap));
     // every small within-word expression next to its mirror image (same pieces, other order),
     // and the same expression / definition used under two different `||` branches
-    let word_leaves = vec![lit("a"), lit("b"), nt("U"), cmd("echo k"), cmd("echo j"), nt("Y")];
+    let word_leaves = vec![lit("a"), lit("b"), nt("U"), cmd("echo k"), cmd("echo j"), nt("Y"), nt("SP")];
     let mut words: Vec<G> = vec![];
     for n in 3..=(if thorough { 5 } else { 4 }) {
         let mut v = vec![];
@@ -100,7 +102,10 @@ pub fn corpus(thorough: bool, seed: u64) -> Vec<Grammar> {
         }
         out.push(wrap(&G::Fb(vec![w.clone(), G::Seq(vec![lit("e"), w.clone()])])));
     }
-    for n in ["X", "Y", "A1", "O", "PATH", "U"] {
+    for n in ["X", "Y", "A1", "O", "PATH", "U", "SP"] {
+        // first as a whole word, later inside a word (and the other way round)
+        out.push(wrap(&G::Seq(vec![G::Opt(Box::new(nt(n))), G::Sub(vec![lit("--m="), nt(n)])])));
+        out.push(wrap(&G::Seq(vec![G::Sub(vec![lit("--m="), nt(n)]), G::Opt(Box::new(nt(n)))])));
         out.push(wrap(&G::Fb(vec![nt(n), G::Seq(vec![lit("e"), nt(n)])])));
         out.push(wrap(&G::Seq(vec![G::Opt(Box::new(G::Fb(vec![lit("a"), nt(n)]))), nt(n)])));
         out.push(wrap(&G::Sub(vec![lit("p="), nt(n)])));
@@ -153,11 +158,28 @@ pub fn check_one(gr: Option<&Grammar>, text: &str, shell: &str, out: &mut Vec<Vi
         }
         Ok(Err(class)) => {
             *stats.entry(format!("rejected:{class}")).or_default() += 1;
+            // C08: a rejection must be one the property prescribes for this grammar
+            if let Some(v) = gr.and_then(|g| expected_verdict(g, shell)) {
+                if !v.must.contains(&class) && !v.may.contains(&class) {
+                    let sig = match v.known_spurious.get(&class) {
+                        Some(reason) => format!("spurious-{class}-{reason}"),
+                        None => format!("spurious-{class}"),
+                    };
+                    out.push(viol("C08.pipeline.verdict", format!("rejected with {class}, but the grammar contains none of that kind of mistake (prescribed: {:?}, tolerated: {:?})", v.must, v.may), text, shell, J::s(if v.must.is_empty() { "accepted".to_string() } else { format!("{:?}", v.must) }), J::s(&class), &sig));
+                }
+            }
             return;
         }
         Ok(Ok(c)) => c,
     };
     *stats.entry("accepted".into()).or_default() += 1;
+    if let Some(v) = gr.and_then(|g| expected_verdict(g, shell)) {
+        if !v.must.is_empty() {
+            out.push(viol("C08.pipeline.verdict", format!("accepted although the grammar contains a mistake of kind {:?}", v.must), text, shell, J::s(format!("{:?}", v.must)), J::s("accepted"), &format!("missed-{}", v.must.iter().next().unwrap())));
+        } else if let Some((class, reason)) = v.known_missed.iter().next() {
+            out.push(viol("C08.pipeline.verdict", format!("accepted although the grammar contains a mistake of kind {class} ({reason})"), text, shell, J::s(class), J::s("accepted"), &format!("missed-{class}-{reason}")));
+        }
+    }
     let raw_nfa = nfa_of(&comp.raw, &comp.raw, 0, false);
     let min_nfa = nfa_of(&comp.min, &comp.min, 0, false);
     let min_read = nfa_of(&comp.min, &comp.min, 0, true);
